@@ -228,7 +228,7 @@ class DynamicObject:
             eq: bool = True
             eq = eq and self.unix_time == other.unix_time
             eq = eq and self.semantic_label == other.semantic_label  # type: ignore
-            eq = eq and self.state.position == other.state.position  # type: ignore
+            eq = eq and np.array_equal(self.state.position, other.state.position)
             eq = eq and self.state.orientation == other.state.orientation  # type: ignore
             return eq
 
